@@ -242,6 +242,42 @@ class Ctx:
         return self.memo[key]
 
 
+def mutates_only_when_true(f):
+    """A recorder that returns bool is treated as "mutates iff it returns true" only if no path writes the scope log and then returns a value that can be false."""
+    class W(Client):
+        def __init__(self):
+            self.bad = False
+
+        def on_call(self, n, s):
+            logged, flags = s
+            if is_call(n, 'push') and (recv_path(n) or '').startswith('this.scoped'):
+                return ((True, flags),)
+            return (s,)
+
+        def on_cond(self, atom, s, branch):
+            a = see_through(atom)
+            logged, flags = s
+            if isinstance(a, dict) and a.get('k') == 'ref' and 'bool' in (a.get('t') or ''):
+                if (a['n'], not branch) in flags:
+                    return None
+                return (logged, flags | {(a['n'], branch)})
+            return s
+
+        def on_exit(self, kind, node, s):
+            logged, flags = s
+            if kind != 'return' or not logged:
+                return
+            e = see_through(node.get('e')) if isinstance(node, dict) and node.get('e') is not None else None
+            if isinstance(e, dict) and e.get('k') == 'lit' and e.get('v') is True:
+                return
+            if isinstance(e, dict) and e.get('k') == 'ref' and (e['n'], True) in flags:
+                return
+            self.bad = True
+    w = W()
+    Engine(f, w).run([(False, frozenset())])
+    return not w.bad
+
+
 def leaf_atomic_rule(res, fx):
     """every MainSolver leaf mutator validates (throws / returns false) before its first write"""
     r = res.rule('leaf-validate-before-mutate', 'inside each MainSolver mutator reached from the interpreter, no explicit throw / `return false` follows the first write '
@@ -325,7 +361,7 @@ def run(src, tier, seed):
     for tab in (LEAF_MUT, COND_MUT):
         tab.pop('opensmt::DefinedFunctions::insert', None)
         tab.pop(rec[0]['name'], None)
-    (COND_MUT if rec[0].get('ret') == 'bool' else LEAF_MUT)[rec[0]['name']] = 'define-fun recorded'
+    (COND_MUT if rec[0].get('ret') == 'bool' and mutates_only_when_true(rec[0]) else LEAF_MUT)[rec[0]['name']] = 'define-fun recorded'
     for name in list(LEAF_MUT) + list(COND_MUT):
         if not fx.funcs(name) and not any(f['name'].split('::')[-1] == name.split('::')[-1] and name.startswith('opensmt::Logic::') for f in fx.F.values()):
             raise AnalysisBroken('mutator table: %s no longer exists (renamed or removed): the table must be re-confirmed' % name)
